@@ -10,7 +10,8 @@ from harness import taskgroup as TG
 from harness.base import Results, corpus_lines
 
 PID = 'C09'
-RULE = ('case = a sequence of <=14 environment actions on one TaskGroup (spawn member/daemon with '
+RULE = ('case = a sequence of <=14 random environment actions (every second trace then continues '
+        'with finish / external-cancel / release actions until every member has finished; every fourth has no next_done caller) on one TaskGroup (spawn member/daemon with '
         'children it spawns while being cancelled; finish None/value/raise; external cancel; slow '
         'reaction to cancellation ends; join() | __aexit__(body raised or not); cancel the '
         'joiner at any instant incl. twice; next_done() by other tasks before/during/after), all '
@@ -62,7 +63,32 @@ def oracle(policy, actions, recs, snap):
             a = actions[idx]
             if a[0] == 'S' and f'sr{a[1]}' not in recs[idx]['obs']:
                 bad.append(('c09:add-after-join', f'step {idx} {a}: spawn accepted after join completed'))
+    bad += join_stuck('c09:join-stuck', policy, actions, recs, snap)[1]
     return bad
+
+
+def join_stuck(key, policy, actions, recs, snap):
+    """Progress clause (property: "members that are slow ... are waited for", i.e. join waits
+    *for members* and for nothing else): at the end of a trace in which no other task called
+    next_done() and had to wait there (Lean: `NoParking`) and the joining task was not cancelled
+    while it was already awaiting the members it had cancelled (F11), if every task ever placed in the group
+    has finished then the join()/__aexit__ task has finished too.  Returns (applies, violations)."""
+    if snap.get('join_state') is None or snap.get('joiner_done') is None:
+        return False, []
+    # a next_done() caller competes with the joiner if it had to wait on the group's semaphore
+    # (F12 needs such a caller); callers that were served at once do not
+    for a, rec in zip(actions, recs):
+        if any(o.startswith('nb') for o in rec['obs']):
+            return False, []
+        if a[0] == 'K' and '_cancel_tasks' in (rec.get('pre_wait') or []):
+            return False, []
+    if not all(st == 'done' for st in snap['status'].values()):
+        return False, []
+    if snap['joiner_done']:
+        return True, []
+    return True, [(key, f'policy {policy}: every member has finished ({sorted(snap["status"])}) '
+                        f'and nobody else consumes the group, but the join task is still '
+                        f'waiting in {snap.get("waits_in")}')]
 
 
 def _spawned_by(i, idx, actions, recs, strict=False):
@@ -88,7 +114,10 @@ def _work(args):
     for k in range(n):
         pol = r.choice(['all', 'any', 'object', 'none'])
         out.append((pol,) + TG.run_trace(repo, pol, r, max_steps=steps,
-                                         micro_rng=r if k % 4 == 0 else None))
+                                         micro_rng=r if k % 4 == 0 else None,
+                                         drain_rng=r if k % 2 == 1 else None,
+                                         consumers=k % 4 != 3,
+                                         min_spawns=r.randint(1, 3) if k % 2 == 1 else 0))
     return out
 
 
@@ -152,6 +181,32 @@ def evaluate(ctx, runs, res, oracle_fn, tag):
         res.count('next_done_blocked', sum(o.startswith('nb') for o in allobs))
         res.count('policy_' + pol)
         res.count('joiner_cancelled', sum(a[0] == 'K' for a in acts))
+        # progress clause: how often its hypotheses were met (and how the traces end)
+        res.count('traces_drained_to_all_members_done' if snap.get('drained') else
+                  'traces_not_drained')
+        if snap['status'] and all(st == 'done' for st in snap['status'].values()):
+            res.count('traces_ending_with_every_member_done')
+            if snap.get('join_state') is not None:
+                res.count('traces_ending_with_every_member_done_and_a_joiner')
+        if join_stuck('x', pol, acts, recs, snap)[0]:
+            res.count('join_stuck_clause_evaluated')
+            if not snap['status']:
+                res.count('join_stuck_clause_evaluated_trivially_no_member')
+            else:
+                res.count('join_stuck_clause_evaluated_with_members')
+                res.count('join_stuck_clause_evaluated_policy_' + pol)
+                j_at = next((n for n, a in enumerate(acts) if a[0] in ('J', 'E')), None)
+                x_at = next((n for n, r_ in enumerate(recs)
+                             if any(o.startswith('jx') for o in r_['obs'])), None)
+                if j_at is not None and x_at is not None and x_at > j_at:
+                    res.count('join_stuck_clause_evaluated_join_had_to_wait')
+                if any(a[0] == 'K' for a in acts):
+                    res.count('join_stuck_clause_evaluated_joiner_cancelled_in_loop')
+                if any(o.startswith('cr') for r_ in recs for o in r_['obs']):
+                    res.count('join_stuck_clause_evaluated_group_had_to_cancel')
+                if any(a[0] == 'N' for a in acts):
+                    res.count('join_stuck_clause_evaluated_noncompeting_consumer')
+        res.count('drain_actions_Y', sum(a[0] == 'Y' for a in acts))
         if any(o.startswith('jx') for o in allobs) and any(o.startswith('cr') for o in allobs):
             res.nontrivial(lines[i])
         if i < 3:
